@@ -16,8 +16,13 @@ use std::{
 
 use serde_json::{json, Value};
 
+mod cli;
 mod common;
 mod fam_array;
+mod fam_fold;
+mod fam_marginalize;
+mod fam_project;
+mod symbolic;
 
 pub use common::*;
 
@@ -45,6 +50,9 @@ type Runner = fn(&Value, &Ctx) -> Outcome;
 fn family(name: &str) -> Option<Runner> {
     Some(match name {
         "array" => fam_array::run,
+        "fold" => fam_fold::run,
+        "marginalize" => fam_marginalize::run,
+        "project" => fam_project::run,
         _ => return None,
     })
 }
